@@ -44,6 +44,12 @@ type sharedInputs struct {
 	stops []generate.GradientStop
 	// one option VALUE (a full palette of colours that are not valid premultiplied colours) applied by many decodes
 	badPalOpt decode.DecodeOption
+	// graphics packed back to back in one buffer (round 10): each is a sub-slice whose capacity runs to the end of the
+	// buffer, some end in the middle of a path (accepted by the decoder); what lies beyond a slice's length is its neighbour
+	atlas    []byte
+	atlasGfx [][]byte
+	// one transform list in a caller-owned slice handed to many Generators
+	xform []generate.Aff3
 }
 
 func loadShared() (*sharedInputs, error) {
@@ -64,6 +70,29 @@ func loadShared() (*sharedInputs, error) {
 	// entries that are not valid premultiplied colours: gradient-shaped, and alpha below a channel
 	s.pal[7] = color.RGBA{0x03, 0x4a, 0x8a, 0x00}
 	s.pal[40] = color.RGBA{0x90, 0x10, 0x10, 0x80}
+	for i, g := range s.graphics {
+		if i >= 6 {
+			break
+		}
+		d := g
+		if i%2 == 1 && len(d) > 0 && d[len(d)-1] == 0xe1 {
+			d = d[:len(d)-1] // ends inside its last path
+		}
+		s.atlas = append(s.atlas, d...)
+	}
+	s.atlas = append(s.atlas, 0x89, 0x49, 0x56, 0x47, 0x00) // an empty graphic at the very end
+	off := 0
+	for i, g := range s.graphics {
+		if i >= 6 {
+			break
+		}
+		n := len(g)
+		if i%2 == 1 && n > 0 && g[n-1] == 0xe1 {
+			n--
+		}
+		s.atlasGfx = append(s.atlasGfx, s.atlas[off:off+n]) // capacity: to the end of the atlas
+		off += n
+	}
 	s.freshShareables()
 	return s, nil
 }
@@ -78,6 +107,7 @@ func (s *sharedInputs) freshShareables() {
 		badPal[i] = color.RGBA{uint8(200 + i%50), uint8(i), 0x90, uint8(i)} // R > A everywhere; some look like gradients
 	}
 	s.badPalOpt = decode.WithPalette(badPal)
+	s.xform = []generate.Aff3{{2, 0, -32, 0, 2, -32}}
 	s.stops = []generate.GradientStop{{Offset: 0.5, Color: color.RGBA{0xff, 0, 0, 0xff}}, {Offset: 0.25, Color: color.NRGBA{0, 0xff, 0, 0x80}},
 		{Offset: 0.75, Color: color.RGBA{0, 0, 0xff, 0xff}}, {Offset: 0.125, Color: color.Gray{0x80}}}
 }
@@ -88,6 +118,8 @@ func (s *sharedInputs) hash() string {
 		h.Write(g)
 	}
 	fmt.Fprint(h, s.pal, s.pathData, s.stops, len(s.opts), cap(s.opts))
+	h.Write(s.atlas)
+	fmt.Fprint(h, s.xform, len(s.xform), cap(s.xform))
 	// every slot of the option list's backing array (and the shared option value), fingerprinted by what the option does to a probe
 	for _, o := range append(append([]decode.DecodeOption{}, s.opts[:cap(s.opts)]...), s.badPalOpt) {
 		m := ivg.Metadata{ViewBox: ivg.ViewBox{MinX: 1, MinY: 2, MaxX: 3, MaxY: 4}}
@@ -256,6 +288,49 @@ func allPipelines(s *sharedInputs) []pipeline {
 				out = append(out, fmt.Sprint(err1, "|", err2, "|", err3, "|", err4, "|", err5, "|", err6, "|", err7, "|", err8, "\n")...)
 			}
 			return out
+		}})
+	}
+	for ai := 0; ai < 6; ai++ {
+		ai := ai
+		ps = append(ps, pipeline{fmt.Sprintf("decode-atlas/%d", ai), func(s *sharedInputs, gate func()) []byte {
+			if ai >= len(s.atlasGfx) {
+				return nil
+			}
+			src := s.atlasGfx[ai]
+			rec := &Recorder{Limit: 4000}
+			err := decode.Decode(newGated(rec, gate), src)
+			var e encode.Encoder
+			err2 := decode.Decode(&e, src)
+			b, err3 := e.Bytes()
+			dis, err4 := decode.Disassemble(src)
+			vb, err5 := decode.DecodeViewBox(src)
+			out, _ := json.Marshal(rec.Calls)
+			return append(append(append(out, b...), dis...), fmt.Sprint(err, err2, err3, err4, vb, err5)...)
+		}})
+	}
+	for k := 0; k < 3; k++ {
+		k := k
+		ps = append(ps, pipeline{fmt.Sprintf("generator-shared-transform/%d", k), func(s *sharedInputs, gate func()) []byte {
+			// the caller's one-element transform list, then the transform changed on the same Generator (cleared, or composed
+			// of two): the list is the caller's and is read by every other pipeline of this kind
+			var e encode.Encoder
+			g := &generate.Generator{}
+			g.SetDestination(newGated(&e, gate))
+			g.SetTransform(s.xform...)
+			err1 := g.SetPathData("M4 4h8V12L1 2z", 0)
+			switch k {
+			case 0:
+				g.SetTransform()
+			case 1:
+				g.SetTransform(generate.Scale(3), generate.Translate(1, -1))
+			default:
+				g.SetTransform(s.xform[0], generate.Translate(5, 5))
+			}
+			err2 := g.SetPathData("M4 4h8V12L1 2z", 0)
+			g.SetTransform(s.xform...)
+			err3 := g.SetPathData("M1 1l2 2L3 0z", 0)
+			b, err4 := e.Bytes()
+			return append(append([]byte(nil), b...), fmt.Sprint(err1, err2, err3, err4)...)
 		}})
 	}
 	ps = append(ps,
